@@ -147,6 +147,18 @@ class World:
     def clone(self, who):
         return copy.deepcopy(self.s[who].real)
 
+    def misuse_receive(self, who, kind):
+        """The application passes something that is not bytes-like to receive() (a bug on its side).  Whatever the call
+        does - normally it raises TypeError - is not judged here; what matters is what the session does afterwards."""
+        arg = {"str": "not bytes", "none": None, "float": 1.5, "object": object()}.get(kind, "x")
+        try:
+            self.s[who].real.receive(arg)
+            out = "returned"
+        except Exception as e:  # noqa: BLE001
+            out = type(e).__name__
+        self.note({"op": "misuse_receive", "who": who, "kind": kind, "out": out})
+        return out
+
     # ------------------------------------------------------------------ ops
 
     def apply(self, op):
@@ -314,6 +326,20 @@ class World:
             # following read (a bytearray with a live export cannot be resized by anybody)
             arg = bytearray(data)
             se.held_views = [memoryview(arg)]
+        elif bufkind == "memoryview_reused":
+            # recv_into(view) style with a fixed-size buffer: the SAME memoryview object is handed over again whenever a read
+            # fills it exactly (here: whenever a delivery has the same length as an earlier one)
+            pool = getattr(se, "rx_views", None)
+            if pool is None:
+                pool = se.rx_views = {}
+            ent = pool.get(len(data))
+            if ent is None or len(pool) > 8:
+                backing = bytearray(data)
+                ent = pool[len(data)] = (backing, memoryview(backing))
+            backing, arg = ent
+            backing[:] = data
+            bufkind = "memoryview"
+            ev["view_reused"] = True
         elif bufkind == "memoryview":
             backing = bytearray(data)
             arg = memoryview(backing)
